@@ -165,9 +165,9 @@ def gen_block(rng, uid):
     return items
 
 
-def gen_header(rng, uid, level):
+def gen_header(rng, uid, level, rich=False):
     m = Meta()
-    title = ["Section", "L%d" % level] + deco_words(rng, uid, m, date_values=False)
+    title = ["Section", "L%d" % level] + deco_words(rng, uid, m, date_values=False, n=rng.randint(2, 4) if rich else None)
     if rng.random() < 0.4:
         m.date = rand_date(rng, 2000, 2999)
         title.append(m.date.strftime("%Y-%m-%d"))
@@ -202,7 +202,7 @@ def all_skeletons(n):
     return out
 
 
-def gen_page(rng, skeleton=None, max_sections=5):
+def gen_page(rng, skeleton=None, max_sections=5, rich=False):
     uid = [1]
     title_meta = Meta()
     head_meta = Meta()
@@ -218,7 +218,8 @@ def gen_page(rng, skeleton=None, max_sections=5):
     top_blocks = [gen_block(rng, uid) for _ in range(rng.randint(0, 2))]
     sections = []
     for lvl in skeleton:
-        sections.append({"hdr": gen_header(rng, uid, lvl), "blocks": [gen_block(rng, uid) for _ in range(rng.randint(0, 2))]})
+        sections.append({"hdr": gen_header(rng, uid, lvl, rich),
+                         "blocks": [gen_block(rng, uid) for _ in range(rng.randint(1, 2) if rich else rng.randint(0, 2))]})
     return {"head": head_lines, "title_meta": title_meta, "head_meta": head_meta, "top": top_blocks, "sections": sections}
 
 
